@@ -292,6 +292,8 @@ def eval_case(ctx, case):
         return codepoints(ctx, case["cps"], case)
     if "tree" in case:
         return sealed_tree(ctx, case)
+    if "collection" in case:
+        return collection(ctx, case)
     return []
 
 
@@ -322,6 +324,39 @@ def sealed_tree(ctx, case):
                               f"{p}: recorded path {r['path']!r} does not name an entry of the sealed tree", case))
             elif r["kind"] == "file" and r["size"] is not None and int(r["size"]) != len(med[full]):
                 v.append(Viol(PROP, "size-roundtrip", {}, f"{p}: {r['path']} size {r['size']} but file has {len(med[full])} bytes", case))
+    return v
+
+
+def collection(ctx, case):
+    """(d) the chain of a flatten destination that already holds packing lists (every packing list is generation 1 of its
+    collection): written by real flatten runs, read by the tool's reader and by the independent one"""
+    from ascmhl import chain_xml_parser as CP
+    v = []
+    t = ops.build(ctx, case["collection_tree"], [ops.create("", ["md5"])], expect=[0])
+    sub.materialise(ctx.root, t)
+    dest = ctx.fresh("c10dest")
+    for i in range(case["collection"]):
+        r = ctx.run("flatten", [ctx.root, dest], now=sub.NOW0 + 100 + 10 * i)
+        if r.exit != 0 or r.exc:
+            v.append(Viol(PROP, "flatten-fails", {"nth": i + 1}, f"flatten #{i + 1} into the same destination: exit {r.exit} {r.exc}\n{r.err[-300:]}", case))
+            sub.rm(dest)
+            return v
+    out = sub.readback(dest)
+    chains = [p for p in out if p.endswith("ascmhl_collection.xml")]
+    lists = sorted(p for p in out if p.endswith(".mhl"))
+    sig = {"flattened": case["collection"]}
+    if len(chains) != 1 or len(lists) != case["collection"]:
+        v.append(Viol(PROP, "collection-files", sig, f"destination holds {sorted(out)}", case))
+        sub.rm(dest)
+        return v
+    want = sorted((p.split("/")[-1], ref.digest("c4", out[p])) for p in lists)
+    ind = [(g["path"], g["c4"]) for g in ref.read_chain(out[chains[0]])]
+    back = [(g.ascmhl_filename, g.hash_string) for g in CP.parse(os.path.join(dest, chains[0])).generations]
+    if sorted(ind) != want:
+        v.append(Viol(PROP, "independent-reader-chain", sig, f"packing lists on disk {want}, collection file holds {ind}", case))
+    if back != ind:
+        v.append(Viol(PROP, "tool-reader-chain", sig, f"collection file holds {len(ind)} entries {ind}, the tool's reader returns {len(back)}: {back}", case))
+    sub.rm(dest)
     return v
 
 
@@ -357,13 +392,16 @@ def main(tier, seed):
     pool = {p: c for p, c in c02.POOL_X}
     cases.append({"tree": pool, "ops": [ops.create("d", ["md5"]), ops.create("", ["xxh64", "c4"]), ops.create("", ["sha1"], n=True)], "dev": ["sealed"]})
     cases.append({"tree": pool, "ops": [ops.create("", list(ref.FORMATS_CLI)), ops.create("", ["md5"], sf=["d/f.txt", "e.dat"])], "dev": ["sealed"]})
+    for n in (1, 2, 3):
+        cases.append({"collection": n, "collection_tree": {"a.txt": b"A", "d": None, "d/b c.txt": b"B"}, "dev": ["collection"]})
     res = eng.pmap(work, cases)
     distinct = set()
     for case, vs in zip(cases, res):
         eng.add_viols(vs)
-        kind = "spec" if "spec" in case else ("chain" if "chain" in case else "codepoints" if "cps" in case else "sealed")
+        kind = "spec" if "spec" in case else ("chain" if "chain" in case else "codepoints" if "cps" in case else
+                                               "collection" if "collection" in case else "sealed")
         eng.outcome((kind, len(case["dev"]), "viol" if vs else "ok"))
-        distinct.add(repr(case.get("spec") or case.get("chain") or (case.get("cps") or [0])[0]))
+        distinct.add(repr(case.get("spec") or case.get("chain") or case.get("collection") or (case.get("cps") or [0])[0]))
     eng.sample({"deviation": cases[5]["dev"], "spec": {k: repr(v) for k, v in cases[5]["spec"].items()}})
     eng.sample({"deviation": cases[len(singles) + 50]["dev"]})
     eng.sample({"codepoint_batch": [hex(cps[0]), hex(cps[4095])]})
@@ -375,7 +413,8 @@ def main(tier, seed):
                    "tool's parser and by an independent lxml reader, compared field by field; chain files with 1-3 entries over "
                    "awkward folder names; (b) every XML-legal non-control code point (quick: BMP, thorough: all planes) as the "
                    "middle character of a path, 4096 per manifest; (c) manifests of real command sequences over the awkward-name "
-                   "pool: both readers agree and every recorded path names an entry of the sealed tree"}
+                   "pool: both readers agree and every recorded path names an entry of the sealed tree; (d) one history flattened 1-3 times "
+                   "into the same destination: the collection file lists every packing list with its digest for both readers"}
     eng.assumptions.append("last-modification date is not in the statement's list and is not compared; dates compare as instants; "
                            "text fields range over non-empty strings")
     return eng.finish(cov, eval_case)
